@@ -21,6 +21,29 @@ static MAX_SINGLE: AtomicU64 = AtomicU64::new(0);
 static VOLUME: AtomicU64 = AtomicU64::new(0);
 static NALLOC: AtomicU64 = AtomicU64::new(0);
 
+// Per-connection attribution: a library thread (or a harness thread inside a library call) works
+// for the connection whose client port is stored in CUR_KEY (set by the socket-read failpoint on
+// connection threads and by the handler wrappers); 0 = unknown.
+thread_local! {
+    static CUR_KEY: Cell<u32> = const { Cell::new(0) };
+}
+const NKEYS: usize = 65536;
+static KEY_MAX: [AtomicU64; NKEYS] = [const { AtomicU64::new(0) }; NKEYS];
+static KEY_VOL: [AtomicU64; NKEYS] = [const { AtomicU64::new(0) }; NKEYS];
+
+pub fn set_key(k: u32) {
+    let _ = CUR_KEY.try_with(|c| c.set(k));
+}
+
+pub fn key_reset(k: u16) {
+    KEY_MAX[k as usize].store(0, Ordering::SeqCst);
+    KEY_VOL[k as usize].store(0, Ordering::SeqCst);
+}
+
+pub fn key_stats(k: u16) -> AllocStats {
+    AllocStats { max_single: KEY_MAX[k as usize].load(Ordering::SeqCst), volume: KEY_VOL[k as usize].load(Ordering::SeqCst), count: 0 }
+}
+
 static TRACE_OVER: AtomicU64 = AtomicU64::new(u64::MAX);
 static TRACE_TEXT: std::sync::Mutex<String> = std::sync::Mutex::new(String::new());
 
@@ -54,6 +77,9 @@ fn charge(size: usize) {
         MAX_SINGLE.fetch_max(size as u64, Ordering::Relaxed);
         VOLUME.fetch_add(size as u64, Ordering::Relaxed);
         NALLOC.fetch_add(1, Ordering::Relaxed);
+        let k = CUR_KEY.try_with(|c| c.get()).unwrap_or(0) as usize % NKEYS;
+        KEY_MAX[k].fetch_max(size as u64, Ordering::Relaxed);
+        KEY_VOL[k].fetch_add(size as u64, Ordering::Relaxed);
     }
 }
 
